@@ -20,7 +20,7 @@ def _alarm(*a):
     raise Timeout()
 
 
-def guarded(f, secs=20):
+def guarded(f, secs=60):
     """run f() under signal.alarm; returns ('ok', value) | ('timeout', None) | ('exc', exception)"""
     old = signal.signal(signal.SIGALRM, _alarm)
     signal.alarm(secs)
